@@ -10,4 +10,5 @@ pub mod observer;
 pub mod observer_cycle;
 pub mod overlap;
 pub mod pathparam;
+pub mod scopes;
 pub mod unit;
